@@ -156,7 +156,7 @@ Proof.
   destruct (run_events_ok prefix b18 m (r_cfg r) fsA MW WA Cok Hmw Hwa (r_events r) _ _ w [r_start r] I Hl2 Hs Hevs)
     as (rest' & cf' & w'' & E'' & I' & _).
   { pose proof (HI_kills prefix _ _ MW WA _ _ (HI_init prefix fsA MW WA) K) as H'.
-    apply (HIc_of_snoc prefix _ _ _ _ _ (add_line (r_start r) (new_file nm (l_time (r_start r))))) in H'; [exact H'|apply fprop_first_line]. }
+    apply (HIc_of_snoc prefix _ _ _ _ _ (add_line (r_start r) (new_file nm (l_time (r_start r))))) in H'; [exact H'|now apply fprop_first_line]. }
   rewrite E' in E''. injection E'' as <-.
   exists w', rest', cf', pushed, (pre0 ++ pre).
   destruct I' as [Hfs [_ Hn _ _] _ _ _ _ _ _]. splits; auto.
